@@ -270,6 +270,56 @@ def _replay_partition(inputs):
     return out
 
 
+def _balance_filter(name):
+    def run(inputs):
+        import cooler._balance as Bm
+        a = {k: conv(v) for k, v in inputs.items()}
+        chunk = a["chunk"]
+        px = {k: np.asarray(v) for k, v in chunk["pixels"].items()}
+        bins = {k: np.asarray(v) for k, v in chunk["bins"].items()}
+        ch = {"pixels": px, "bins": bins}
+        nb = len(bins["chrom"])
+        out = {"inputs_used": repr(a)[:600]}
+        if any(not (0 <= x < nb) for x in list(px["bin1_id"]) + list(px["bin2_id"])):
+            out.update(violations=[], violates_contract=False, note="model violates the precondition")
+            return out
+        snap = {k: v.copy() for k, v in px.items()}
+        b1, b2 = px["bin1_id"], px["bin2_id"]
+        if name == "_init":
+            r = Bm._init(ch)
+            r[...] = r + 1 if len(r) else r
+            viol = [] if np.array_equal(px["count"], snap["count"]) else ["_init returned the chunk's own count array (writes go through)"]
+            out.update(returned="copy" if not viol else "alias", raised=None, violations=viol, violates_contract=bool(viol))
+            return out
+        d0 = np.asarray(a["data"], dtype=float)
+        data = d0.copy()
+        c = bins["chrom"]
+        if name == "_binarize":
+            r = Bm._binarize(ch, data); exp = np.where(d0 != 0, 1, d0)
+        elif name == "_zero_diags":
+            nd = int(a["n_diags"]); r = Bm._zero_diags(nd, ch, data); exp = np.where(np.abs(b1 - b2) < nd, 0, d0)
+        elif name == "_zero_trans":
+            r = Bm._zero_trans(ch, data); exp = np.where(c[b1] != c[b2], 0, d0)
+        elif name == "_zero_cis":
+            r = Bm._zero_cis(ch, data); exp = np.where(c[b1] == c[b2], 0, d0)
+        else:
+            vec = np.asarray(a["vec"], dtype=float)
+            if len(vec) != nb:
+                out.update(violations=[], violates_contract=False, note="model violates the precondition")
+                return out
+            r = Bm._timesouterproduct(vec, ch, data); exp = vec[b1] * vec[b2] * d0
+        viol = [] if np.allclose(r, exp) else [f"{name} gave {np.asarray(r).tolist()}, expected {exp.tolist()}"]
+        if any(not np.array_equal(px[k], snap[k]) for k in px):
+            viol.append("the shared chunk was written")
+        out.update(returned=repr(np.asarray(r).tolist()), raised=None, violations=viol, violates_contract=bool(viol))
+        return out
+    return run
+
+
+for _n in ("_init", "_binarize", "_zero_diags", "_zero_trans", "_zero_cis", "_timesouterproduct"):
+    CUSTOM["cooler._balance:" + _n] = _balance_filter(_n)
+
+
 def replay(target, inputs, ghost=None):
     if target in CUSTOM:
         import inspect
